@@ -7,6 +7,7 @@ import (
 	"os/exec"
 	"path/filepath"
 	"regexp"
+	"strconv"
 	"runtime"
 	"sort"
 	"strings"
@@ -663,4 +664,70 @@ func genTLS(t *rapid.T) *tlsfix.Case {
 func TestPropTLS(t *testing.T) {
 	vk.Main(t, vk.Spec[tlsfix.Case]{ID: "C20", Facet: "tls", Quick: 40, Thorough: 300, Gen: genTLS, Check: tlsfix.Check, CaseTimeout: 120 * time.Second,
 		Rule: "2..16 sources fetched in parallel over loopback HTTP with pprof's own transport: one https+insecure:// (its answer held back 0/20/50 ms so that it is in flight while the others are fetched), one https:// to the same self-signed server, the rest plain http; under the race detector; oracle: no data race, the insecure source is fetched, the https:// source is never fetched - verification is per source, not a state of the shared transport; every case is non-trivial"})
+}
+
+// ---- facet options: the interactive option listing (a read) while option defaults are being set ----
+
+type optCase struct{ Setters, Mode, GoMaxProcs int }
+
+func genOpt(t *rapid.T) *optCase {
+	return &optCase{Setters: rapid.IntRange(1, 3).Draw(t, "setters"), Mode: rapid.IntRange(0, 2).Draw(t, "mode"), GoMaxProcs: rapid.SampledFrom([]int{2, 4, 16}).Draw(t, "gomaxprocs")}
+}
+
+var optLine = regexp.MustCompile(`(?m)^  (granularity|nodecount|focus) +=\s+(\S*)\s*(//: .*)?$`)
+
+func checkOpt(c *optCase, o *vk.Obs) []string {
+	var e vk.Errs
+	helper := filepath.Join(os.Getenv("VERIF_BUILD"), "xhelper20-race")
+	if _, err := os.Stat(helper); err != nil {
+		o.Inconcl = append(o.Inconcl, "race-enabled helper binary missing")
+		return nil
+	}
+	cmd := exec.Command(helper, "options", fmt.Sprint(c.Setters), fmt.Sprint(c.Mode), "30")
+	cmd.Env = append(os.Environ(), fmt.Sprintf("GOMAXPROCS=%d", c.GoMaxProcs), "GORACE=halt_on_error=1")
+	var stdout, stderr bytes.Buffer
+	cmd.Stdout, cmd.Stderr = &stdout, &stderr
+	err := cmd.Run()
+	if strings.Contains(stderr.String(), "DATA RACE") {
+		return []string{fmt.Sprintf("data race between the option listing and %d goroutine(s) setting option defaults (mode %d):\n%.3000s", c.Setters, c.Mode, stderr.String())}
+	}
+	if err != nil {
+		return []string{fmt.Sprintf("session with concurrent option updates failed: %v\n%.2000s", err, stderr.String())}
+	}
+	gran := map[string]bool{"lines": true, "functions": true, "files": true, "addresses": true, "filefunctions": true}
+	n := 0
+	for _, m := range optLine.FindAllStringSubmatch(stdout.String(), -1) {
+		n++
+		switch m[1] {
+		case "granularity":
+			if !gran[m[2]] {
+				e.Addf("option listing shows granularity = %q, which no caller ever set", m[2])
+			}
+			if m[3] != "//: [addresses | filefunctions | files | functions | lines]" {
+				e.Addf("option listing shows the granularity choices as %q", m[3])
+			}
+		case "nodecount":
+			if v, err := strconv.Atoi(m[2]); err != nil || !(v == -1 || (v >= 10 && v <= 14)) {
+				e.Addf("option listing shows nodecount = %q, which no caller ever set", m[2])
+			}
+		case "focus":
+			if m[2] != `""` && m[2] != `"main"` && m[2] != `"ma.n"` {
+				e.Addf("option listing shows focus = %s, which no caller ever set", m[2])
+			}
+		}
+	}
+	if n != 9 {
+		e.Addf("expected three listings of granularity/nodecount/focus, found %d lines:\n%.1500s", n, stdout.String())
+	}
+	if i := strings.Index(stdout.String(), "==== report"); i < 0 || !regexp.MustCompile(`(?m)^\s+1\s+100%\s+100%\s+1\s+100%\s+\S`).MatchString(stdout.String()[i:]) {
+		e.Addf("the report printed during the updates is not the one-row report of the profile:\n%.600s", stdout.String()[max(i, 0):])
+	}
+	o.Label(fmt.Sprintf("mode:%d", c.Mode))
+	o.NonTrivial = true
+	return e
+}
+
+func TestPropOptions(t *testing.T) {
+	vk.Main(t, vk.Spec[optCase]{ID: "C20", Facet: "options", Quick: 30, Thorough: 200, Gen: genOpt, Check: checkOpt, CaseTimeout: 120 * time.Second,
+		Rule: "a fresh race-enabled helper process per case: one interactive session lists the options three times ('o', a pure read) and prints a report while 1..3 goroutines set option defaults through driver.SetVariableDefault (granularity=<choice>, <choice>=true, nodecount, focus) until the session ends, at GOMAXPROCS 2/4/16; oracle: no data race, the session succeeds, every listed value is one some caller set, the granularity choices are listed intact, the report is the profile's; every case is non-trivial (the first listing of a process is where shared option metadata would be touched, hence one process per case)"})
 }
